@@ -2319,8 +2319,28 @@ func foldKernels(p *core.Program) map[*ssa.Function]bool {
 
 // foldWholeGeometryRule (C08): the box of a geometry is folded over all of its coordinates.
 func foldWholeGeometryRule(p *core.Program, r *core.Report, rule string) {
-	r.Rule(rule, "every call in package geom that hands a flat array to a fold kernel of Bounds passes the geometry's whole array - the result of FlatCoords() on the geometry itself or a load of its flatCoords field, also through a helper that returns exactly that on every path - from offset 0 to len of that same array: a box computed from a part of the coordinates (the shell without the holes, whose Z and M are not bounded by the shell's) is not the minimum and maximum over all coordinates", 3)
+	r.Rule(rule, "every call in package geom that hands a flat array to a fold kernel of Bounds passes the geometry's whole array - the result of FlatCoords() on the geometry itself or a load of its flatCoords field, also through a helper that returns exactly that on every path - from offset 0 to len of that same array: a box computed from a part of the coordinates (the shell without the holes, whose Z and M are not bounded by the shell's) is not the minimum and maximum over all coordinates", 1)
 	kernels := foldKernels(p)
+	// a function that hands its own array parameter on to a kernel is part of the kernel (the obligation is its callers')
+	for changed := true; changed; {
+		changed = false
+		for _, fn := range pkgFuncs(p, "") {
+			if kernels[fn] || fn.Parent() != nil {
+				continue
+			}
+			for _, c := range eng.Calls(fn) {
+				if !kernels[eng.StaticCallee(c)] {
+					continue
+				}
+				for _, a := range c.Common().Args {
+					if prm, ok := a.(*ssa.Parameter); ok && isFloatSlice(prm.Type()) && !kernels[fn] {
+						kernels[fn] = true
+						changed = true
+					}
+				}
+			}
+		}
+	}
 	var whole func(v ssa.Value, depth int) bool
 	whole = func(v ssa.Value, depth int) bool {
 		if depth > 5 {
